@@ -1,6 +1,9 @@
 """C20 surrogate generators conserve what they promise to conserve."""
 import itertools
+import os
 import random
+import shutil
+import tempfile
 import warnings
 
 import numpy as np
@@ -27,6 +30,11 @@ ASSUMPTIONS = ["inputs: Ts / TsGroup on a single-interval support [s, e], s < e,
                "timestamps (C20_group_recomputed_support_single_refuted / _raises_refuted; reported as findings). A pair of members whose recomputed supports touch is no "
                "longer an exception (6917604: _union_intervals unites two supports like three or more); such pairs are generated (counter "
                "recomputed_pair_with_touching_supports) and must keep every stamp",
+               "argument forms: a form never changes WHAT is given, only HOW; a form that cannot hold the sampled values exactly (uint8 and -50 s, float32 and 1e5 s + 2^-9 s, a "
+               "TsIndex and ms) is not generated. An UNSIGNED NumPy scalar / 0-d array as max_jitter is an admissible jitter (it is the number it holds): violations met with it carry "
+               "the key flag unsigned_max_jitter=True; the model is not compared there (the draws break its precondition |d| <= J). A TsGroup WITHOUT members is a TsGroup input: the "
+               "statement holds vacuously member-wise, so the call must return a group without members (pattern empty_group when it raises instead). An input object modified in "
+               "place by the call is reported as an exception-part violation ('the INPUT object was modified by the call')",
                "the statement does not promise the class or the order of the result: any object with .t and .time_support is accepted and its stamps are compared as a multiset "
                "(the model comparison still pins the sorted order)"]
 
@@ -51,6 +59,8 @@ class Draws:
         self.mode, self.rng, self.script, self.seed, self.step = mode, rng, list(script or []), seed, step
         self.log = []        # ("u", lo, hi, [ticks]) | ("p", [perm])
         self.bad = None
+        self.inverted = False
+        self.mark = None     # length of the log when the SECOND of two calls on one live object started
 
     def __enter__(self):
         self._u, self._p, self._state = np.random.uniform, np.random.permutation, np.random.get_state()
@@ -79,7 +89,12 @@ class Draws:
                 k = (hi - lo) // self.step
                 r = self.rng.random()
                 v = lo if r < 0.1 else (hi if r < 0.2 else lo + self.rng.randint(0, max(k, 0)) * self.step)
-            if not lo <= v <= hi:
+            if lo > hi and self.mode != "script":
+                # the LIBRARY asked for an inverted range (NumPy accepts it and draws between the two): not a harness error; the
+                # draw is one of the two ends and the statement oracle judges what comes out
+                v = lo if self.rng.random() < 0.5 else hi
+                self.inverted = True
+            elif not lo <= v <= hi:
                 self.bad = "scripted draw %d outside [%d, %d]" % (v, lo, hi)
             vals.append(v)
         self.log.append(("u", lo, hi, vals))
@@ -109,7 +124,9 @@ def canon_ts(r):
     return [C.to_ns(x) for x in r.t], [(C.to_ns(a), C.to_ns(b)) for a, b in r.time_support.values]
 
 
-def call_op(nap, op, x, p):
+def call_op(nap, op, x, p, cf=None):
+    if cf is not None:
+        return call_op_form(nap, op, x, p, cf)
     if op == "shift_timestamps":
         return nap.shift_timestamps(x, p["min"] / 1e9, None if p["max"] is None else p["max"] / 1e9)
     if op == "jitter_timestamps":
@@ -128,37 +145,425 @@ def in_support_of(ts, s, e):
     return [(s, e)] if len(ts) else []
 
 
-def run_ts(nap, op, ts, s, e, p, dr):
-    """-> ("ok", stamps, support) | ("exc", name)"""
-    x = nap.Ts(G.arr(ts), time_support=mk_support(nap, s, e))
+# --------------------------------------------------------------------------------------
+# ARGUMENT FORMS: the same instants / the same numbers, handed over in every form the public signatures accept.
+# A form never changes WHAT is given (ticks of the stamps, of the support, of min/max/J), only HOW; every builder below is a
+# pure function of (ticks, form) so that a replay rebuilds the very same objects.
+S1 = 10 ** 9                                   # whole-second lattice (= 512 U): stamps an integer dtype can hold
+BIG = 10 ** 14                                 # 1e5 s (a whole multiple of U; 1e5 + k 2^-9 is exact in float64)
+INT_DT = {"int64": np.int64, "int32": np.int32, "int16": np.int16, "int8": np.int8,
+          "uint8": np.uint8, "uint16": np.uint16, "uint32": np.uint32, "uint64": np.uint64}
+T_FORMS_ANY = ("ndarray", "list", "tuple", "pd.Series", "pd.Index", "TsIndex", "x.t", "strided_view", "readonly", "reversed")
+T_FORMS_WHOLE = tuple(INT_DT) + ("pyint_list", "bool", "pd.Series_int64", "float32")
+SUP_FORMS_ANY = ("scalars", "kw", "arrays", "lists", "2d", "ms", "us", "metadata", "intersect", "from_ts")
+SUP_FORMS_WHOLE = ("pyint", "int64_arrays", "int16_arrays", "uint16_arrays", "uint64_arrays", "us_pyint", "float32_arrays")
+HIST_TS = ("direct", "direct_kw", "restrict", "slice_all", "slice_sub", "mask", "fancy", "get", "saveload", "tsd_index", "TsIndex_slice")
+NUM_ANY = ("float", "np.float64", "np.float32", "0d_float64", "0d_float32")
+NUM_WHOLE = ("int", "np.int64", "np.int32", "np.int16", "0d_int64", "np.uint8", "np.uint16", "np.uint64", "0d_uint8")
+UNSIGNED = ("np.uint8", "np.uint16", "np.uint64", "0d_uint8")
+STYLES = {"shift_timestamps": ("pos", "kw", "kw_ts", "mixed"), "jitter_timestamps": ("pos", "kw", "kw_ts", "mixed"),
+          "resample_timestamps": ("pos", "kw_ts"), "shuffle_ts_intervals": ("pos", "kw_ts", "extra_pos", "extra_kw")}
+KEEP_FORMS = ("bool", "np.bool_", "omit")
+TSD_DATA = ("float64", "float32", "int64", "int32", "int16", "int8", "uint8", "uint16", "uint32", "uint64", "bool", "nan_inf", "zeros", "equal")
+MEMBER_FORMS = ("Ts", "Ts_sup", "Ts_units", "TsIndex", "Tsd", "Tsd_sup", "array", "list", "array_int", "same_obj")
+KEY_FORMS = ("int", "str", "float", "np.int64", "mixed", "reversed", "list", "tuple")
+KEY_SETS = ("small", "multi_digit", "negative", "range")
+GROUP_HIST = ("direct", "direct_pos", "subset", "restrict", "saveload", "bool_index")
+GROUP_META = (None, "dict", "dataframe", "kwargs")
+_TMP = []
+
+
+class NotApplicable(Exception):
+    """this form cannot hold these values exactly (e.g. uint8 and a negative time): the sampler draws another case"""
+
+
+def _tmpdir():
+    if not _TMP:
+        _TMP.append(tempfile.mkdtemp(prefix="c20_forms_"))
+    return _TMP[0]
+
+
+def _cleanup_tmp():
+    while _TMP:
+        shutil.rmtree(_TMP.pop(), ignore_errors=True)
+
+
+def mknum(kind, ticks):
+    """the number ticks/1e9 as a Python float / int, a NumPy scalar or a 0-d array - only when that form holds it exactly"""
+    v = ticks / 1e9
+    if kind == "float":
+        return v
+    if kind == "np.float64":
+        return np.float64(v)
+    if kind == "0d_float64":
+        return np.array(v)
+    if kind in ("np.float32", "0d_float32"):
+        if float(np.float32(v)) != v:
+            raise NotApplicable(kind)
+        return np.float32(v) if kind == "np.float32" else np.array(v, dtype=np.float32)
+    if ticks % S1:
+        raise NotApplicable(kind)
+    n = ticks // S1
+    if kind == "int":
+        return int(n)
+    dt = np.dtype(kind.split("_")[-1].replace("np.", ""))
+    if not np.iinfo(dt).min <= n <= np.iinfo(dt).max:
+        raise NotApplicable(kind)
+    return np.array(n, dtype=dt) if kind.startswith("0d") else dt.type(n)
+
+
+def check_nums(op, p, cf):
+    """raise NotApplicable unless every number of the call can be given in the form cf['num']"""
+    k = cf.get("num", "float")
+    if op == "shift_timestamps":
+        mknum(k, p["min"])
+        if p["max"] is not None:
+            mknum(k, p["max"])
+    elif op == "jitter_timestamps":
+        mknum(k, p["J"])
+    elif op == "shuffle_ts_intervals" and cf.get("style", "pos").startswith("extra"):
+        for t in cf.get("extra", (0, None)):
+            if t is not None:
+                mknum(k, t)
+    elif k != "float":
+        raise NotApplicable("no number in this call")
+
+
+def call_op_form(nap, op, x, p, cf):
+    """the public call in the form cf: positional / keyword / mixed, defaults left out or spelled, numbers in the form cf['num']"""
+    k, style = cf.get("num", "float"), cf.get("style", "pos")
+    if op == "shift_timestamps":
+        a = mknum(k, p["min"])
+        b = None if p["max"] is None else mknum(k, p["max"])
+        omit_max = p["max"] is None and cf.get("omit_max", False)
+        omit_min = p["min"] == 0 and cf.get("omit_min", False)
+        if style == "pos":
+            return nap.shift_timestamps(*((x,) if omit_min and omit_max else (x, a) if omit_max else (x, a, b)))
+        kw = {}
+        if not omit_max:
+            kw["max_shift"] = b
+        if style == "mixed" and not omit_min:
+            return nap.shift_timestamps(x, a, **kw)
+        if not omit_min:
+            kw = dict(min_shift=a, **kw) if not cf.get("kw_swapped") else dict(kw, min_shift=a)
+        return nap.shift_timestamps(ts=x, **kw) if style == "kw_ts" else nap.shift_timestamps(x, **kw)
+    if op == "jitter_timestamps":
+        J = mknum(k, p["J"])
+        kf = cf.get("keep", "bool")
+        keep = np.bool_(p["keep"]) if kf == "np.bool_" else bool(p["keep"])
+        omit = kf == "omit" and not p["keep"]
+        if style == "pos":
+            return nap.jitter_timestamps(x, J) if omit else nap.jitter_timestamps(x, J, keep)
+        kw = {} if omit else {"keep_tsupport": keep}
+        if style == "mixed":
+            return nap.jitter_timestamps(x, J, **kw)
+        kw = dict(max_jitter=J, **kw) if not cf.get("kw_swapped") else dict(kw, max_jitter=J)
+        return nap.jitter_timestamps(ts=x, **kw) if style == "kw_ts" else nap.jitter_timestamps(x, **kw)
+    f = nap.resample_timestamps if op == "resample_timestamps" else nap.shuffle_ts_intervals
+    if style == "kw_ts":
+        return f(ts=x)
+    if style.startswith("extra"):        # shuffle_ts_intervals(ts, min_shift=0.0, max_shift=None): two parameters of the signature the docstring ignores
+        a, b = cf.get("extra", (0, None))
+        a, b = mknum(k, a), (None if b is None else mknum(k, b))
+        return f(x, a, b) if style == "extra_pos" else f(x, max_shift=b, min_shift=a)
+    return f(x)
+
+
+def mk_times(nap, ticks, tform, units="s"):
+    """the instants `ticks` as the `t` argument of a constructor, in the form tform and the unit `units`"""
+    mult = {"s": 1, "ms": 10 ** 3, "us": 10 ** 6}[units]
+    if tform in INT_DT or tform in ("pyint_list", "bool", "pd.Series_int64"):
+        if any(t % S1 for t in ticks):
+            raise NotApplicable(tform)
+        vals = [t // S1 * mult for t in ticks]
+        if tform == "pyint_list":
+            return [int(v) for v in vals]
+        if tform == "bool":
+            if units != "s" or not vals or any(v not in (0, 1) for v in vals):
+                raise NotApplicable(tform)
+            return np.array(vals, dtype=bool)
+        dt = np.dtype(np.int64 if tform == "pd.Series_int64" else INT_DT[tform])
+        if any(not np.iinfo(dt).min <= v <= np.iinfo(dt).max for v in vals):
+            raise NotApplicable(tform)
+        a = np.array(vals, dtype=dt)
+        if tform == "pd.Series_int64":
+            import pandas as pd
+            return pd.Series(a)
+        return a
+    f = G.arr(ticks) if units == "s" else G.arr(ticks) * float(mult)
+    if tform == "float32":
+        f32 = f.astype(np.float32)
+        if not np.array_equal(f32.astype(np.float64), f):
+            raise NotApplicable(tform)
+        return f32
+    if tform == "ndarray":
+        return f
+    if tform == "list":
+        return [float(v) for v in f]
+    if tform == "tuple":
+        return tuple(float(v) for v in f)
+    if tform in ("pd.Series", "pd.Index"):
+        import pandas as pd
+        return pd.Series(f) if tform == "pd.Series" else pd.Index(f, dtype=np.float64)
+    if tform in ("TsIndex", "x.t"):
+        if units != "s":                 # a TsIndex / x.t is in seconds by construction
+            raise NotApplicable(tform)
+        other = nap.Ts(f)
+        return other.index if tform == "TsIndex" else other.t
+    if tform == "strided_view":          # every other cell of a bigger buffer: shares memory, not contiguous
+        big = np.full(2 * len(f) + 1, -1.0)
+        big[1::2] = f
+        return big[1::2]
+    if tform == "readonly":
+        f = f.copy()
+        f.setflags(write=False)
+        return f
+    if tform == "reversed":              # decreasing order, negative stride: the constructor sorts
+        return f[::-1]
+    raise RuntimeError("harness: unknown time form %r" % (tform,))
+
+
+def mk_sup(nap, s, e, sform="scalars"):
+    """the IntervalSet [s, e] built in the form sform"""
+    a, b = s / 1e9, e / 1e9
+    if sform == "scalars":
+        return nap.IntervalSet(a, b)
+    if sform == "kw":
+        return nap.IntervalSet(start=a, end=b)
+    if sform == "arrays":
+        return nap.IntervalSet(np.array([a]), np.array([b]))
+    if sform == "lists":
+        return nap.IntervalSet([a], [b])
+    if sform == "2d":
+        return nap.IntervalSet(np.array([[a, b]]))
+    if sform in ("ms", "us"):
+        m = 1e3 if sform == "ms" else 1e6
+        return nap.IntervalSet(a * m, b * m, time_units=sform)
+    if sform == "metadata":
+        return nap.IntervalSet(a, b, metadata={"label": ["x"]})
+    if sform == "intersect":             # a derived support: the intersection of two wider ones
+        w = max(e - s, U)
+        return nap.IntervalSet((s - w) / 1e9, b).intersect(nap.IntervalSet(a, (e + w) / 1e9))
+    if sform == "from_ts":               # the default support of another series that spans it
+        return nap.Ts(np.array([a, b])).time_support
+    if s % S1 or e % S1:
+        raise NotApplicable(sform)
+    si, ei = s // S1, e // S1
+    if sform == "pyint":
+        return nap.IntervalSet(int(si), int(ei))
+    if sform == "us_pyint":
+        return nap.IntervalSet(int(si) * 10 ** 6, int(ei) * 10 ** 6, time_units="us")
+    if sform == "float32_arrays":
+        if float(np.float32(si)) != si or float(np.float32(ei)) != ei:
+            raise NotApplicable(sform)
+        return nap.IntervalSet(np.array([si], dtype=np.float32), np.array([ei], dtype=np.float32))
+    if sform.endswith("_arrays"):
+        dt = np.dtype(sform[:-7])
+        if not (np.iinfo(dt).min <= si and ei <= np.iinfo(dt).max):
+            raise NotApplicable(sform)
+        return nap.IntervalSet(np.array([si], dtype=dt), np.array([ei], dtype=dt))
+    raise RuntimeError("harness: unknown support form %r" % (sform,))
+
+
+def build_ts(nap, ts, s, e, form=None):
+    """the input Ts with stamps `ts` on the support [s, e], reached through the construction history form['hist']"""
+    if form is None:
+        return nap.Ts(G.arr(ts), time_support=mk_support(nap, s, e))
+    tf, un, hist, step = form.get("t", "ndarray"), form.get("units", "s"), form.get("hist", "direct"), form.get("step", U)
+    sup = mk_sup(nap, s, e, form.get("sup", "scalars"))
+    n = len(ts)
+    if hist == "direct":
+        return nap.Ts(mk_times(nap, ts, tf, un), un, sup)
+    if hist == "direct_kw":
+        return nap.Ts(time_support=sup, time_units=un, t=mk_times(nap, ts, tf, un))
+    if hist in ("restrict", "TsIndex_slice"):
+        wide = [s - 2 * step, s - step] + list(ts) + [e + step]
+        if hist == "restrict":           # a longer recording cut down to the support
+            return nap.Ts(mk_times(nap, wide, tf, un), time_units=un).restrict(sup)
+        return nap.Ts(nap.Ts(mk_times(nap, wide, tf, un), time_units=un).index[2:-1], time_support=sup)    # a TsIndex VIEW into another object's index
+    if hist == "tsd_index":              # the index of a Tsd re-used for a Ts
+        if tf.startswith("pd.Series"):   # Tsd(t=Series) reads the Series as (index -> times, values -> data): another meaning, by design
+            raise NotApplicable(tf)
+        tsd = nap.Tsd(mk_times(nap, ts, tf, un), np.arange(n), time_units=un, time_support=sup)
+        return nap.Ts(tsd.index, time_support=tsd.time_support)
+    if hist == "slice_sub":              # parent holds one more stamp (on the support end); the input is a slice of it
+        return nap.Ts(mk_times(nap, list(ts) + [e], tf, un), time_units=un, time_support=sup)[0:n]
+    parent = nap.Ts(mk_times(nap, ts, tf, un), time_units=un, time_support=sup)
+    if hist == "slice_all":
+        return parent[:]
+    if hist == "mask":
+        return parent[np.ones(n, dtype=bool)]
+    if hist == "fancy":
+        return parent[np.arange(n)]
+    if hist == "get":
+        return parent.get(s / 1e9, e / 1e9)
+    if hist == "saveload":
+        path = os.path.join(_tmpdir(), "ts.npz")
+        parent.save(path)
+        return nap.load_file(path)
+    raise RuntimeError("harness: unknown history %r" % (hist,))
+
+
+def mk_data(n, dt, dseed):
+    """n data values of a Tsd member (the generators must ignore them): every dtype, NaN / +inf / -inf, zeros, all equal"""
+    r = random.Random(dseed)
+    if dt == "nan_inf":
+        return np.array([r.choice([np.nan, np.inf, -np.inf, 1.0, 0.0]) for _ in range(n)], dtype=np.float64)
+    if dt == "zeros":
+        return np.zeros(n)
+    if dt == "equal":
+        return np.full(n, 7.0)
+    if dt == "bool":
+        return np.array([r.random() < 0.5 for _ in range(n)], dtype=bool)
+    d = np.dtype(dt)
+    if d.kind == "f":
+        return np.array([r.randint(-5, 5) for _ in range(n)], dtype=d)
+    lo = 0 if d.kind == "u" else -5
+    return np.array([r.choice([lo, 5, np.iinfo(d).max, np.iinfo(d).min]) for _ in range(n)], dtype=d)
+
+
+def build_group(nap, keys, tss, s, e, gf=None):
+    """the input TsGroup {keys[i]: tss[i]} on [s, e]; keys / members / container / options / history in the form gf"""
+    if gf is None:
+        return nap.TsGroup({k: nap.Ts(G.arr(ts)) for k, ts in zip(keys, tss)}, time_support=mk_support(nap, s, e))
+    sup = mk_sup(nap, s, e, gf.get("sup", "scalars"))
+    mform, kform, hist, step, un = gf.get("member", "Ts"), gf.get("keys", "int"), gf.get("hist", "direct"), gf.get("step", U), gf.get("units", "s")
+    keys, tss = list(keys), [list(t) for t in tss]
+    full_sup = sup
+    if hist == "restrict":               # a wider recording, every member with stamps outside [s, e], cut down with TsGroup.restrict
+        tss = [[s - 2 * step] + t + [e + step, e + 3 * step] for t in tss]
+        full_sup = mk_sup(nap, s - 4 * step, e + 4 * step, "scalars")
+    elif hist in ("subset", "bool_index"):      # one more member, indexed away afterwards
+        keys, tss = keys + [max(keys + [0]) + 1], tss + [[s, e]]
+    if mform == "same_obj" and any(t != tss[0] for t in tss):
+        raise NotApplicable("same_obj needs identical members")
+    if mform in ("array", "list", "array_int") and hist == "restrict":
+        raise NotApplicable("raw arrays are restricted by the constructor already")
+    bypass = bool(gf.get("bypass")) and mform in ("Ts_sup", "Tsd_sup") and hist != "restrict"      # only for members restricted beforehand
+    if mform not in ("array", "list", "array_int"):
+        un = "s"                         # time_units of TsGroup only applies to raw arrays
+    shared = None
+    members = []
+    for i, ts in enumerate(tss):
+        if mform == "Ts":
+            m = nap.Ts(G.arr(ts))
+        elif mform == "Ts_sup":
+            m = nap.Ts(G.arr(ts), time_support=full_sup)
+        elif mform == "Ts_units":
+            u = ("ms", "us")[i % 2]
+            m = nap.Ts(mk_times(nap, ts, "ndarray", u), time_units=u)
+        elif mform == "TsIndex":
+            m = nap.Ts(nap.Ts(G.arr(ts)).index)
+        elif mform in ("Tsd", "Tsd_sup"):
+            d = mk_data(len(ts), TSD_DATA[(gf.get("dseed", 0) + i) % len(TSD_DATA)] if gf.get("data") is None else gf["data"], gf.get("dseed", 0) + i)
+            m = nap.Tsd(G.arr(ts), d) if mform == "Tsd" else nap.Tsd(G.arr(ts), d, time_support=full_sup)
+        elif mform == "array":
+            m = mk_times(nap, ts, "ndarray", un)
+        elif mform == "list":
+            m = mk_times(nap, ts, "list", un)
+        elif mform == "array_int":
+            m = mk_times(nap, ts, ("int64", "uint16", "int32", "uint64")[i % 4], un)
+        elif mform == "same_obj":
+            shared = shared if shared is not None else nap.Ts(G.arr(ts))
+            m = shared
+        else:
+            raise RuntimeError("harness: unknown member form %r" % (mform,))
+        members.append(m)
+    ko = []
+    for i, k in enumerate(keys):
+        f = kform if kform != "mixed" else ("int", "str", "float", "np.int64")[i % 4]
+        ko.append(str(k) if f == "str" else float(k) if f == "float" else np.int64(k) if f == "np.int64" else int(k))
+    if kform in ("list", "tuple"):
+        if keys != list(range(len(keys))):
+            raise NotApplicable("an iterable gives the keys 0..n-1")
+        data = list(members) if kform == "list" else tuple(members)
+    elif kform == "reversed":            # insertion order decreasing: the group sorts its keys
+        data = dict(reversed(list(zip(ko, members))))
+    else:
+        data = dict(zip(ko, members))
+    kw = {}
+    if bypass:
+        kw["bypass_check"] = True
+    if un != "s":
+        kw["time_units"] = un
+    meta = gf.get("meta")
+    lab = ["m%d" % i for i in range(len(keys))]
+    if meta == "dict":
+        kw["metadata"] = {"label": lab}
+    elif meta == "dataframe":
+        import pandas as pd
+        kw["metadata"] = pd.DataFrame({"label": lab, "depth": list(range(len(keys)))}, index=keys)
+    elif meta == "kwargs":
+        kw["label"] = np.array(lab)
+    g = nap.TsGroup(data, full_sup, **kw) if hist == "direct_pos" else nap.TsGroup(data, time_support=full_sup, **kw)
+    if hist == "restrict":
+        g = g.restrict(sup)
+    elif hist == "subset":
+        g = g[keys[:-1]]
+    elif hist == "bool_index":
+        g = g[np.array([True] * (len(keys) - 1) + [False])]
+    elif hist == "saveload":
+        if mform in ("Tsd", "Tsd_sup"):
+            raise NotApplicable("save/load of Tsd groups is C11's business")
+        path = os.path.join(_tmpdir(), "group.npz")
+        g.save(path)
+        g = nap.load_file(path)
+    return g
+
+
+def run_ts(nap, op, ts, s, e, p, dr, form=None, keep=None, obj=None):
+    """-> ("ok", stamps, support) | ("exc", name).  form = {"t","units","sup","hist","step","call": {...}, "twice"}; keep: dict receiving the live
+    objects; obj: an existing live object (the result of an earlier call) used instead of building the input"""
+    x = build_ts(nap, ts, s, e, form) if obj is None else obj
     if canon_ts(x) != (list(ts), in_support_of(ts, s, e)):
-        raise RuntimeError("harness: could not build the input Ts %r on [%d, %d]" % (ts, s, e))
+        raise RuntimeError("harness: could not build the input Ts %r on [%d, %d] (form %r)" % (ts, s, e, form))
+    cf = None if form is None else form.get("call")
     try:
         with dr:
-            r = call_op(nap, op, x, p)
+            r = call_op(nap, op, x, p, cf)
+            if form is not None and form.get("twice"):       # the same live object used twice: the second result is the one judged
+                dr.mark = len(dr.log)
+                r = call_op(nap, op, x, p, cf)
     except Exception as ex:   # noqa: BLE001
         return ("exc", type(ex).__name__)
     if dr.bad:
         raise RuntimeError("harness: " + dr.bad)
+    if keep is not None:
+        keep["x"], keep["r"] = x, r
     if not (hasattr(r, "t") and hasattr(r, "time_support")):     # the class of the result is not part of the statement
         return ("exc", "not a series of timestamps: " + type(r).__name__)
+    if form is not None and canon_ts(x) != (list(ts), in_support_of(ts, s, e)):
+        return ("exc", "the INPUT object was modified by the call")
     return ("ok",) + canon_ts(r)
 
 
-def run_group(nap, op, keys, tss, s, e, p, dr):
+def canon_group(r):
+    return ([int(k) for k in r.keys()], [[C.to_ns(v) for v in r[k].t] for k in r.keys()], [(C.to_ns(a), C.to_ns(b)) for a, b in r.time_support.values])
+
+
+def run_group(nap, op, keys, tss, s, e, p, dr, form=None, keep=None, obj=None):
     """-> ("ok", keys, [stamps], support, [member supports]) | ("exc", name)"""
-    g = nap.TsGroup({k: nap.Ts(G.arr(ts)) for k, ts in zip(keys, tss)}, time_support=mk_support(nap, s, e))
-    if list(g.keys()) != list(keys) or [[C.to_ns(v) for v in g[k].t] for k in keys] != [list(t) for t in tss]:
-        raise RuntimeError("harness: could not build the input TsGroup %r" % (tss,))
+    g = build_group(nap, keys, tss, s, e, None if form is None else form.get("group", {})) if obj is None else obj
+    if list(g.keys()) != list(keys) or [[C.to_ns(v) for v in g[k].t] for k in keys] != [list(t) for t in tss] or \
+            (form is not None and canon_group(g)[2] != [(s, e)]):
+        raise RuntimeError("harness: could not build the input TsGroup %r (form %r)" % (tss, form))
+    cf = None if form is None else form.get("call")
     try:
         with dr:
-            r = call_op(nap, op, g, p)
+            r = call_op(nap, op, g, p, cf)
+            if form is not None and form.get("twice"):
+                dr.mark = len(dr.log)
+                r = call_op(nap, op, g, p, cf)
     except Exception as ex:   # noqa: BLE001
         return ("exc", type(ex).__name__)
     if dr.bad:
         raise RuntimeError("harness: " + dr.bad)
+    if keep is not None:
+        keep["x"], keep["r"] = g, r
     if not (hasattr(r, "keys") and hasattr(r, "time_support") and hasattr(r, "__getitem__")):
         return ("exc", "not a group of series: " + type(r).__name__)
+    if form is not None and canon_group(g) != (list(keys), [list(t) for t in tss], [(s, e)]):
+        return ("exc", "the INPUT object was modified by the call")
     ks = [int(k) for k in r.keys()]
     gs = [(C.to_ns(a), C.to_ns(b)) for a, b in r.time_support.values]
     # ticks of support endpoints stored as NON-canonical floats (trimmed `end - 1e-6`, never re-rounded): DESIGN.md section 2
@@ -292,6 +697,8 @@ def judge_group(op, keys, tss, s, e, p, r, draws, res=None):
         key = {"op": op, "kind": kind, "part": "exception", "exception": r[1]}
         if r[1] == "IndexError" and op == "shuffle_ts_intervals" and any(len(t) == 0 for t in tss):
             key["pattern"] = "empty_member"
+        elif r[1] == "RuntimeError" and not support_kept(op, p) and not tss:
+            key["pattern"] = "empty_group"        # no member at all: its own pattern, so that the known zero-span entries cannot absorb it
         elif r[1] == "RuntimeError" and not support_kept(op, p) and all(degenerate):
             key["pattern"] = "all_members_single_distinct_timestamp"
         return [{"key": key, "what": "%s(TsGroup) raised %s" % (op, r[1])}]
@@ -454,6 +861,339 @@ def group_cases(tier, seed):
     return out
 
 
+
+# --------------------------------------------------------------------------------------
+# sampler of (case, argument form)
+ORIGIN_NAMES = ("0", "100s", "-50s", "straddle0", "1e5s")
+PARAM_SPECIALS = ("max_jitter=0", "min_shift==max_shift", "max_shift=None", "min_shift<0", "max_shift>span")
+
+
+def origin_ticks(name, L, step):
+    return {"0": 0, "100s": 100 * 10 ** 9, "-50s": -50 * 10 ** 9, "straddle0": -(L // 2) * step, "1e5s": BIG}[name]
+
+
+def rand_ts_step(rng, o, L, nmax, step, dup=0.25):
+    n = rng.randint(1, nmax)
+    ts = []
+    for _ in range(n):
+        r = rng.random()
+        if ts and r < dup:
+            ts.append(rng.choice(ts))
+        elif r < dup + 0.1:
+            ts.append(o + rng.choice([0, L]) * step)
+        else:
+            ts.append(o + rng.randint(0, L) * step)
+    return sorted(ts)
+
+
+def rand_params_form(rng, op, L, step, special=None):
+    if op == "shift_timestamps":
+        r = rng.random()
+        if special == "max_shift=None" or (special is None and r < 0.25):
+            return {"min": rng.choice([0, 0, step]), "max": None}
+        if special == "min_shift==max_shift" or (special is None and r < 0.35):
+            a = rng.randint(-L, 2 * L) * step
+            return {"min": a, "max": a}
+        if special == "min_shift<0":
+            a = -rng.randint(1, L) * step
+        elif special == "max_shift>span":
+            a = rng.randint(L, 2 * L) * step
+        else:
+            a = rng.randint(-L, L) * step if r < 0.5 else rng.randint(0, L) * step
+        return {"min": a, "max": a + rng.randint(1 if special else 0, 2 * L) * step}
+    if op == "jitter_timestamps":
+        J = 0 if special == "max_jitter=0" else rng.choice([0, step, step, 2 * step, 5 * step, L * step])
+        return {"J": J, "keep": rng.random() < 0.5}
+    return {}
+
+
+def sample_case(rng, kind, op, force):
+    whole = force.get("whole")
+    if whole is None:
+        whole = any(v in T_FORMS_WHOLE or v in SUP_FORMS_WHOLE or v in NUM_WHOLE or v == "array_int" for v in force.values() if isinstance(v, str)) \
+            or rng.random() < 0.35
+    step = S1 if whole else U
+    L = rng.choice([4, 6, 12])
+    o = origin_ticks(force.get("origin") or rng.choice(ORIGIN_NAMES), L, step)
+    s, e = o, o + L * step
+    p = rand_params_form(rng, op, L, step, force.get("param"))
+    style = rng.choice(STYLES[op])
+    call = {"style": style, "num": rng.choice(NUM_ANY + (NUM_WHOLE if whole else ())), "keep": rng.choice(KEEP_FORMS),
+            "omit_min": rng.random() < 0.5, "omit_max": rng.random() < 0.6, "kw_swapped": rng.random() < 0.5}
+    for k, v in force.items():
+        if k.startswith("call."):
+            call[k[5:]] = v
+    if op == "shuffle_ts_intervals" and call["style"].startswith("extra"):
+        call["extra"] = (rng.choice([0, step, 3 * step]), rng.choice([None, 4 * step]))
+    elif op in ("resample_timestamps", "shuffle_ts_intervals"):
+        call["num"] = "float"
+    form = {"step": step, "call": call, "twice": force.get("twice", rng.random() < 0.12)}
+    sups = SUP_FORMS_ANY + (SUP_FORMS_WHOLE if whole else ())
+    c = {"kind": kind, "op": op, "s": s, "e": e, "p": p, "form": form}
+    if kind == "Ts":
+        form.update(t=rng.choice(T_FORMS_ANY + (T_FORMS_WHOLE if whole else ())), units=rng.choice(["s", "s", "ms", "us"]),
+                    sup=rng.choice(sups), hist=rng.choice(HIST_TS))
+        for k in ("t", "units", "sup", "hist"):
+            if k in force:
+                form[k] = force[k]
+        r = rng.random()
+        if force.get("ts") == "empty" or (r < 0.05 and "hist" not in force and "ts" not in force):
+            c["ts"] = []
+            form["hist"] = rng.choice(["direct", "direct_kw"])
+        elif force.get("ts") == "single" or r < 0.15:
+            c["ts"] = [o + rng.randint(0, L) * step]
+        elif force.get("ts") == "bool01":
+            c["ts"] = sorted(rng.choice([0, step]) for _ in range(rng.randint(1, 4)))
+        elif force.get("ts") == "all_equal":
+            c["ts"] = [o + rng.randint(0, L) * step] * rng.randint(2, 4)
+        else:
+            c["ts"] = rand_ts_step(rng, o, L, 6, step)
+        return c
+    gf = {"step": step, "sup": rng.choice(sups), "member": rng.choice(MEMBER_FORMS + (() if whole else ())), "keys": rng.choice(KEY_FORMS),
+          "keyset": rng.choice(KEY_SETS), "hist": rng.choice(GROUP_HIST), "meta": rng.choice(GROUP_META), "bypass": rng.random() < 0.4,
+          "units": rng.choice(["s", "s", "ms", "us"]), "data": rng.choice((None,) + TSD_DATA), "dseed": rng.randrange(10 ** 6)}
+    for k, v in force.items():
+        if k.startswith("group."):
+            gf[k[6:]] = v
+    if gf["member"] == "array_int" and not whole:
+        gf["member"] = "array"
+    if force.get("group.bypass") and "group.member" not in force:
+        gf["member"] = rng.choice(["Ts_sup", "Tsd_sup"])
+        gf["hist"] = rng.choice([h for h in GROUP_HIST if h != "restrict"])
+    if force.get("group.data") and "group.member" not in force:
+        gf["member"] = rng.choice(["Tsd", "Tsd_sup"])
+    if force.get("group.units") and "group.member" not in force:
+        gf["member"] = rng.choice(["array", "list"] + (["array_int"] if whole else []))
+    if gf["member"] in ("array", "list", "array_int") and gf["hist"] == "restrict" and "group.hist" not in force:
+        gf["hist"] = "direct"
+    if gf["member"] in ("Tsd", "Tsd_sup") and gf["hist"] == "saveload" and "group.hist" not in force:
+        gf["hist"] = "subset"
+    form["group"] = gf
+    nm = rng.choice([1, 2, 2, 3, 3, 4])
+    if gf["keys"] in ("list", "tuple"):
+        gf["keyset"] = "range"
+    ks = gf["keyset"]
+    keys = list(range(nm)) if ks == "range" else sorted(rng.sample(range(0, 12) if ks == "small" else range(10, 400) if ks == "multi_digit" else range(-9, 6), nm))
+    tss = []
+    for _k in keys:
+        r = rng.random()
+        tss.append([] if r < 0.06 else [o + rng.randint(0, L) * step] if r < 0.16 else rand_ts_step(rng, o, L, 4, step))
+    if gf["member"] == "same_obj":
+        tss = [list(tss[-1]) for _ in keys]
+    c["keys"], c["tss"] = keys, tss
+    return c
+
+
+def gen_form_case(rng, nap, kind, op, force=None, tries=80):
+    """a sampled case whose form can hold the sampled values exactly (uint8 cannot hold -50 s, float32 cannot hold 1e5 s + 2^-9 s, ...)"""
+    for _ in range(tries):
+        c = sample_case(rng, kind, op, force or {})
+        try:
+            check_nums(op, c["p"], c["form"]["call"])
+            if kind == "Ts":
+                build_ts(nap, c["ts"], c["s"], c["e"], c["form"])
+            else:
+                build_group(nap, c["keys"], c["tss"], c["s"], c["e"], c["form"]["group"])
+        except NotApplicable:
+            continue
+        return c
+    return None
+
+
+def forced_axes(kind, op):
+    """one-factor-at-a-time list: every value of every form axis is generated at least once per operation and tier, whatever the seed"""
+    out = [{"origin": v} for v in ORIGIN_NAMES] + [{"twice": True}]
+    out += [{"call.style": v} for v in STYLES[op]]
+    if op == "shift_timestamps":
+        out += [{"call.num": v} for v in NUM_ANY + NUM_WHOLE] + [{"param": v} for v in PARAM_SPECIALS[1:]]
+        out += [{"param": "max_shift=None", "call.omit_max": a, "call.omit_min": b, "call.style": st} for a in (True, False) for b in (True, False) for st in ("pos", "kw")]
+        out += [{"call.style": "kw", "call.kw_swapped": True}]
+    if op == "jitter_timestamps":
+        out += [{"call.num": v} for v in NUM_ANY + NUM_WHOLE] + [{"param": "max_jitter=0"}]
+        out += [{"call.keep": k, "call.style": st} for k in KEEP_FORMS for st in ("pos", "kw", "mixed")]
+    if op == "shuffle_ts_intervals":
+        out += [{"call.style": st, "call.num": v} for st in ("extra_pos", "extra_kw") for v in ("float", "int", "np.float32")]
+    sups = [{"sup": v} for v in SUP_FORMS_ANY + SUP_FORMS_WHOLE]
+    if kind == "Ts":
+        out += sups + [{"t": v} for v in T_FORMS_ANY + T_FORMS_WHOLE if v != "bool"] + [{"units": v} for v in ("ms", "us")] + [{"hist": v} for v in HIST_TS]
+        out += [{"t": "bool", "origin": "0", "units": "s", "ts": "bool01", "hist": h} for h in ("direct", "get")]      # a bool array can only say 0 s and 1 s
+        out += [{"t": v, "units": u} for v in ("int64", "uint32", "list", "pd.Series") for u in ("ms", "us")]
+        out += [{"ts": v} for v in ("empty", "single", "all_equal")] + [{"ts": "single", "hist": h} for h in ("slice_sub", "restrict", "get")]
+        out += [{"t": "TsIndex", "hist": h} for h in ("direct", "slice_sub", "restrict")] + [{"hist": "TsIndex_slice", "twice": True}]
+    else:
+        out += [{"group." + k: v["sup"]} for v in sups for k in ("sup",)]
+        out += [{"group.member": v} for v in MEMBER_FORMS] + [{"group.keys": v} for v in KEY_FORMS] + [{"group.keyset": v} for v in KEY_SETS]
+        out += [{"group.hist": v} for v in GROUP_HIST] + [{"group.meta": v} for v in GROUP_META[1:]] + [{"group.bypass": True}]
+        out += [{"group.data": v} for v in TSD_DATA] + [{"group.units": v} for v in ("ms", "us")]
+        out += [{"group.keys": "str", "group.keyset": "multi_digit"}, {"group.keys": "reversed", "group.keyset": "negative"},
+                {"group.member": "same_obj", "twice": True}, {"group.member": "Tsd", "group.hist": "restrict"},
+                {"group.member": "Tsd_sup", "group.bypass": True, "group.meta": "dict"}]
+    return out
+
+
+def form_labels(c):
+    """the input classes a case belongs to (counted in the evidence file)"""
+    kind, op, p, form = c["kind"], c["op"], c["p"], c["form"]
+    cf = form["call"]
+    out = ["lattice=" + ("1s" if form["step"] == S1 else "2^-9s"), "%s:style=%s" % (op, cf["style"])]
+    if "chain" in form:
+        out.append("history=result of %s fed to %s" % (form["chain"], op))
+    else:
+        L = (c["e"] - c["s"]) // form["step"]
+        out.append("placement=" + ([n for n in ORIGIN_NAMES if origin_ticks(n, L, form["step"]) == c["s"]] + ["other"])[0])
+    if op in ("shift_timestamps", "jitter_timestamps") or cf["style"].startswith("extra"):
+        out.append("num=" + cf["num"])
+    if op == "shift_timestamps":
+        if p["max"] is None:
+            out.append("max_shift=" + ("left out" if cf.get("omit_max") else "None spelled"))
+        elif p["min"] == p["max"]:
+            out.append("min_shift==max_shift")
+        if p["min"] == 0 and cf.get("omit_min") and (cf["style"] != "pos" or (p["max"] is None and cf.get("omit_max"))):
+            out.append("min_shift left out")
+        if p["min"] < 0:
+            out.append("min_shift<0")
+    if op == "jitter_timestamps":
+        out.append("keep_tsupport=" + ("left out" if cf["keep"] == "omit" and not p["keep"] else "np.bool_" if cf["keep"] == "np.bool_" else "bool") + ("/True" if p["keep"] else "/False"))
+        if p["J"] == 0:
+            out.append("max_jitter=0")
+    if form.get("twice"):
+        out.append("same live object used twice")
+    if "chain" in form:
+        pass
+    elif kind == "Ts":
+        out += ["t=" + form["t"], "units=" + form["units"], "support=" + form["sup"], "history=" + form["hist"]]
+        out.append("Ts:" + ("empty" if not c["ts"] else "single stamp" if len(c["ts"]) == 1 else "all stamps equal" if len(set(c["ts"])) == 1 else "general"))
+    elif c["keys"]:
+        gf = form["group"]
+        raw = gf["member"] in ("array", "list", "array_int")
+        out += ["group:support=" + gf["sup"], "group:member=" + gf["member"], "group:keys=" + gf["keys"], "group:keyset=" + gf["keyset"],
+                "group:history=" + gf["hist"], "group:metadata=" + str(gf["meta"])]
+        if raw:
+            out.append("group:time_units=" + gf["units"])
+        if gf["member"] in ("Tsd", "Tsd_sup"):
+            out.append("group:Tsd data=" + (gf["data"] or "cycled dtypes"))
+        if gf.get("bypass") and gf["member"] in ("Ts_sup", "Tsd_sup") and gf["hist"] != "restrict":
+            out.append("group:bypass_check=True")
+        if any(not t for t in c["tss"]):
+            out.append("group:with an empty member")
+    else:
+        out.append("group:EMPTY TsGroup built from " + {"int": "{}", "list": "[]", "tuple": "()"}[form["group"]["keys"]])
+    return out
+
+
+def line_empty_group(op, s, e, p):
+    """model line of a group WITHOUT members (line_group would emit one empty member)"""
+    if op == "shift_timestamps":
+        return "shift_group\t%d %d\t\t" % (s, e)
+    if op == "jitter_timestamps":
+        return "jitter_group\t%d %d %d\t" % (1 if p["keep"] else 0, s, e)
+    if op == "resample_timestamps":
+        return "resample_group\t%d %d\t" % (s, e)
+    return "shuffle_group\t"
+
+
+def judged_draws(dr):
+    """the draws of the call whose outcome is judged: the SECOND of two calls on one live object when it was reached, else everything"""
+    return dr.flat()[dr.mark:] if dr.mark is not None else dr.flat()
+
+
+def judged_log(dr):
+    return dr.log[dr.mark:] if dr.mark is not None else dr.log
+
+
+def range_errors(op, kind, members, s, e, p, log):
+    """the library must ask NumPy for draws in the range the signature documents (the model takes the draws as arguments under exactly that
+    precondition): list of messages. Default max_shift of a Ts: last - first stamp in the code, 'length of time support' in the docstring - both accepted"""
+    bad = []
+    us = [x for x in log if x[0] == "u"]
+    if op == "shuffle_ts_intervals":
+        return ["np.random.uniform called by shuffle_ts_intervals"] if us else []
+    for _, lo, hi, _v in us:
+        if op == "shift_timestamps":
+            his = [p["max"]] if p["max"] is not None else [e - s] + ([members[0][-1] - members[0][0]] if kind == "Ts" and members[0] else [])
+            ok = lo == p["min"] and hi in his
+        elif op == "jitter_timestamps":
+            ok = (lo, hi) == (-p["J"], p["J"])
+        else:
+            ok = (lo, hi) == (s, e) or (kind == "Ts" and members[0] and (lo, hi) == (members[0][0], members[0][-1]))
+        if not ok:
+            bad.append("%s drew from [%d, %d] ns, parameters %r, support [%d, %d]" % (op, lo, hi, p, s, e))
+    return bad[:1]
+
+
+def check_range(res, op, kind, members, s, e, p, dr, inp):
+    for msg in range_errors(op, kind, members, s, e, p, dr.log):
+        res.disagreements.append({"op": op, "kind": kind, "input": inp, "what": "draw range: " + msg})
+
+
+def flag_unsigned(viols, op, form):
+    """violations met with an UNSIGNED NumPy scalar as max_jitter carry their own key flag (genuine-defect candidate: -max_jitter wraps around)"""
+    if op == "jitter_timestamps" and form is not None and form.get("call", {}).get("num") in UNSIGNED:
+        for v in viols:
+            v["key"]["unsigned_max_jitter"] = True
+    return viols
+
+
+def run_form_case(nap, res, c, dr, section, n, lines, pending, real=False, keep=None, obj=None):
+    """one case in one argument form: library run, statement oracle, draw-range check, model line (lattice draws only)"""
+    kind, op, s, e, p, form = c["kind"], c["op"], c["s"], c["e"], c["p"], c["form"]
+    unsigned = op == "jitter_timestamps" and form["call"]["num"] in UNSIGNED
+    if kind == "Ts":
+        ts = c["ts"]
+        r = run_ts(nap, op, ts, s, e, p, dr, form=form, keep=keep, obj=obj)
+        draws = judged_draws(dr)
+        inp = {"kind": "Ts", "op": op, "ts": ts, "support": [s, e], "params": p, "form": form}
+        inp.update({"numpy_seed": dr.seed} if real else {"draws": draws})
+        res.case((section, n), nontrivial=r[0] == "ok" and r[1] != ts)
+        record(res, flag_unsigned(judge_ts(op, ts, s, e, p, r), op, form), inp)
+        members = [ts]
+    else:
+        keys, tss = c["keys"], c["tss"]
+        r = run_group(nap, op, keys, tss, s, e, p, dr, form=form, keep=keep, obj=obj)
+        draws = align_draws(op, tss, judged_draws(dr))
+        inp = {"kind": "TsGroup", "op": op, "keys": keys, "tss": tss, "support": [s, e], "params": p, "form": form}
+        inp.update({"numpy_seed": dr.seed} if real else {"draws": draws})
+        res.case((section, n), nontrivial=r[0] == "ok" and r[2] != tss)
+        record(res, flag_unsigned(judge_group(op, keys, tss, s, e, p, r, draws, res=res), op, form), inp)
+        members = tss
+    for lab in form_labels(c):
+        if not real:
+            res.count("forms " + lab)
+        elif lab.startswith(("t=", "num=", "group:member=", "keep_tsupport=", "same live")):      # (the other families are counted for the lattice runs)
+            res.count("forms(real rng) " + lab)
+    if not unsigned:
+        for msg in range_errors(op, kind, members, s, e, p, dr.log):      # both calls of a 'twice' case
+            res.disagreements.append({"op": op, "kind": kind, "input": inp, "what": "draw range: " + msg})
+    if real:
+        if op == "jitter_timestamps" and p["keep"] and r[0] == "ok" and not unsigned:
+            dv = judged_draws(dr)
+            outs = [r[1]] if kind == "Ts" else r[2]
+            if (kind == "TsGroup" and r[1] != list(c["keys"])) or len(dv) != len(members) or \
+                    not all(kept_by_draws(t, s, e, o_, d, 1) for t, o_, d in zip(members, outs, dv)):
+                res.disagreements.append({"op": op, "kind": kind, "input": dict(inp, draws=dv), "impl": r[1:4],
+                                          "what": "keep_tsupport=True: the result is not the stamps t_k + d_k (recorded draws) that fall inside the support"})
+        return r
+    # model comparison: the forms do not change WHAT is given, so the same model line applies. Not compared: a call that raised before drawing
+    # (already a violation) and an unsigned max_jitter (the draws break the model's precondition |d| <= J)
+    if unsigned or dr.inverted:
+        res.count("forms: model comparison skipped (inverted draw range)")
+    elif kind == "Ts":
+        if r[0] == "ok":
+            mdraws = draws if draws else [[0] if op == "shift_timestamps" else []]
+            lines.append(line_ts(op, ts, s, e, p, mdraws))
+            pending.append(("Ts", inp, r))
+    elif not keys and not support_kept(op, p) and r[0] == "ok":
+        # the model's TsGroup constructor raises on an empty union of supports, members or not (that is the library's behaviour at the pinned commit, reported
+        # as pattern empty_group); a library repaired to return the empty group is judged by the statement oracle alone on this form
+        res.count("forms: model comparison skipped (empty group returned, model says 'raises')")
+    elif len(draws) == len(members):
+        lines.append(line_group(op, keys, tss, s, e, p, draws) if keys else line_empty_group(op, s, e, p))
+        pending.append(("TsGroup", inp, r))
+    elif r[0] != "exc":
+        res.disagreements.append({"op": op, "input": inp, "what": "number of recorded draw calls differs from the number of members"})
+    return r
+
+
 # --------------------------------------------------------------------------------------
 def record(res, viols, inp):
     for v in viols:
@@ -472,7 +1212,27 @@ def run(res, tier, seed):
                 "(D) NumPy's real generator, seeded, 200 (quick) / 5000 (thorough) seeds x 4 generators x Ts/TsGroup, statement oracle only. (E) shuffle on ns-resolution stamps. "
                 "(F) shift/jitter/resample with ns-resolution stamps and draws (a shift landing exactly on a multiple of the support length may come out as end instead of start: float_ambiguous). "
                 "(G) the EMPTY Ts x 3 origins x 4 generators x every parameter set (5 shift ranges, jitter keep both ways): no exception, nothing out. "
-                "Every (A)(B)(C)(E)(F)(G) case is also compared with the extracted Coq model fed the recorded draws. non-trivial = the draw changes the series (result != input)")
+                "Every (A)(B)(C)(E)(F)(G) case is also compared with the extracted Coq model fed the recorded draws. non-trivial = the draw changes the series (result != input). "
+                "ARGUMENT FORMS (H)(J)(K)(L)(M): the same instants and numbers handed over in every form the signatures accept; (H) = every value of every axis below once per "
+                "operation (one factor at a time, deterministic) + a seeded sample of the product, lattice draws, model compared; (L) = the same sampler with NumPy's real generator. "
+                "Axis 1 (dtype of data): the four generators take no data; Tsd MEMBERS of a TsGroup carry float64/float32/int64..int8/uint8..uint64/bool data, NaN, +inf, -inf, zeros, "
+                "all-equal values, which must not matter. "
+                "Axis 2 (form of times and scalars): the input stamps as ndarray, list, tuple, pandas Series / Index, another object's TsIndex and .t, a TsIndex slice (view), strided / "
+                "read-only / decreasing arrays, float32, int8..int64, uint8..uint64, bool, Python ints (integer forms on a whole-second lattice); the support from scalars, keywords, arrays, "
+                "lists, a 2-d array, Python ints, int16/int64/uint16/uint64/float32 arrays, with metadata, as an intersection, as another series' default support; min_shift / max_shift / "
+                "max_jitter as float, int, np.float64, np.float32, np.int16/32/64, np.uint8/16/64 and 0-d arrays; keep_tsupport as bool and np.bool_. "
+                "Axis 3 (positional / keyword / defaults): every call positional, keyword, mixed and with ts= by keyword, keyword order swapped; max_shift left out / None spelled / given; "
+                "min_shift left out / given; keep_tsupport left out / False / True; min_shift == max_shift; max_jitter = 0; shuffle_ts_intervals with its two ignored parameters given. "
+                "Axis 4 (time units): the generators take no unit; the INPUT Ts / IntervalSet / raw TsGroup members are built from ms and us values (same instants). "
+                "Axis 5 (placement): supports at 0 s, 100 s, -50 s, straddling 0 and at 1e5 s, stamps on both support ends (sub-microsecond spacing: sections (E)(F)). "
+                "Axis 6 (degenerate): empty Ts, single stamp, all stamps equal (explicit support), duplicates; (K) the EMPTY TsGroup built from {} / [] / () x 5 placements x every parameter "
+                "set; groups with empty members; keys small / multi-digit / negative / 0..n-1, given as int, str, float, np.int64, mixed, in decreasing insertion order, or implied by a list / tuple. "
+                "Axis 7 (classes): Ts and TsGroup; TsGroup members Ts (own / default support), Ts from ms/us, Ts on a TsIndex, Tsd, raw arrays / lists / integer arrays (time_units s/ms/us), "
+                "the same Ts object as every member; metadata as dict / DataFrame / keyword; bypass_check=True; (M) Tsd, TsdFrame, TsdTensor, dict, list are outside the signature: an "
+                "exception or a result that satisfies the statement. "
+                "Axis 8 (histories): the input reached through restrict, slices, boolean / integer indexing, get, save + load, a Tsd's index, TsGroup[...] subsets, TsGroup.restrict; the same "
+                "live object used twice (second result judged, input must be unchanged - checked after every call of (H)(J)(K)(L)); (J) the RESULT of one generator fed to the next. "
+                "All sections: the range np.random.uniform is asked for must be the documented one (else a disagreement: it is the model's precondition on the draws)")
     res.exhaustive = True
     lines, pending = [], []
 
@@ -486,6 +1246,7 @@ def run(res, tier, seed):
         res.count("A:" + op)
         res.count("origin=%d" % (s // 10 ** 9))
         record(res, judge_ts(op, ts, s, e, p, r), inp)
+        check_range(res, op, "Ts", [ts], s, e, p, dr, inp)
         lines.append(line_ts(op, ts, s, e, p, draws))
         pending.append(("Ts", inp, r))
         if len(pending) % 9001 == 0:
@@ -505,6 +1266,7 @@ def run(res, tier, seed):
         if any(len(set(t)) == 1 for t in tss):
             res.count("group_with_single_distinct_member")
         record(res, judge_group(op, keys, tss, s, e, p, r, draws, res=res), inp)
+        check_range(res, op, "TsGroup", tss, s, e, p, dr, inp)
         if len(draws) == len(tss):
             lines.append(line_group(op, keys, tss, s, e, p, draws))
             pending.append(("TsGroup", inp, r))
@@ -529,6 +1291,7 @@ def run(res, tier, seed):
             inp = {"kind": "Ts", "op": op, "ts": ts, "support": [s, e], "params": p, "draws": draws}
             res.case(("C", n), nontrivial=r[0] == "ok" and r[1] != ts)
             record(res, judge_ts(op, ts, s, e, p, r), inp)
+            check_range(res, op, "Ts", [ts], s, e, p, dr, inp)
             lines.append(line_ts(op, ts, s, e, p, draws))
             pending.append(("Ts", inp, r))
         else:
@@ -539,6 +1302,7 @@ def run(res, tier, seed):
             inp = {"kind": "TsGroup", "op": op, "keys": keys, "tss": tss, "support": [s, e], "params": p, "draws": draws}
             res.case(("C", n), nontrivial=r[0] == "ok" and r[2] != tss)
             record(res, judge_group(op, keys, tss, s, e, p, r, draws, res=res), inp)
+            check_range(res, op, "TsGroup", tss, s, e, p, dr, inp)
             if len(draws) == len(tss):
                 lines.append(line_group(op, keys, tss, s, e, p, draws))
                 pending.append(("TsGroup", inp, r))
@@ -612,6 +1376,7 @@ def run(res, tier, seed):
             inp = {"kind": "Ts", "op": op, "ts": ts, "support": [s, e], "params": p, "draws": draws, "resolution": "ns"}
             res.case(("F", n), nontrivial=r[0] == "ok" and r[1] != ts)
             record(res, judge_ts(op, ts, s, e, p, r), inp)
+            check_range(res, op, "Ts", [ts], s, e, p, dr, inp)
             lines.append(line_ts(op, ts, s, e, p, draws))
             pending.append(("Ts", inp, r))
         else:
@@ -622,6 +1387,7 @@ def run(res, tier, seed):
             inp = {"kind": "TsGroup", "op": op, "keys": keys, "tss": tss, "support": [s, e], "params": p, "draws": draws, "resolution": "ns"}
             res.case(("F", n), nontrivial=r[0] == "ok" and r[2] != tss)
             record(res, judge_group(op, keys, tss, s, e, p, r, draws, res=res), inp)
+            check_range(res, op, "TsGroup", tss, s, e, p, dr, inp)
             if len(draws) == len(tss):
                 lines.append(line_group(op, keys, tss, s, e, p, draws))
                 pending.append(("TsGroup", inp, r))
@@ -640,12 +1406,99 @@ def run(res, tier, seed):
                 res.case(("G", op, s, str(p)), nontrivial=False)
                 res.count("G:empty_Ts")
                 record(res, judge_ts(op, [], s, e, p, r), inp)
+                check_range(res, op, "Ts", [[]], s, e, p, dr, inp)
                 if r[0] == "ok":       # the model never raises on an empty series; an exception is already reported above
                     mdraws = draws if draws else [[0] if op == "shift_timestamps" else []]
                     lines.append(line_ts(op, [], s, e, p, mdraws))
                     pending.append(("Ts", inp, r))
 
-    # model comparison for (A)(B)(C)(E)(F)(G)
+    # ---- argument forms (sections H..M): the same instants and numbers in every form the public signatures accept ----
+    FOREIGN = ("Tsd", "TsdFrame", "TsdTensor", "dict", "list")
+    quick = tier == "quick"
+
+    # (H) every form axis, one factor at a time (deterministic list) + seeded samples of the product; lattice draws, model compared
+    rng = random.Random(seed * 43 + 6)
+    todo = [(kind, op, f) for kind in ("Ts", "TsGroup") for op in OPS for f in forced_axes(kind, op)]
+    res.count("H:one-factor-at-a-time cases", len(todo))
+    todo += [(rng.choice(["Ts", "TsGroup"]), rng.choice(OPS), None) for _ in range(1500 if quick else 20000)]
+    for n, (kind, op, f) in enumerate(todo):
+        c = gen_form_case(rng, nap, kind, op, f)
+        if c is None:
+            res.count("H:forced combination that no sampled case can hold (skipped)")
+            continue
+        run_form_case(nap, res, c, Draws("lattice", rng=random.Random(seed * 47 + n)), "H", n, lines, pending)
+        res.count("H:" + op)
+        if n % 997 == 0:
+            res.sample({"section": "H", "case": {k: v for k, v in c.items()}})
+
+    # (J) multi-step histories: the RESULT of one generator (a live object) fed to the next one
+    rng = random.Random(seed * 53 + 8)
+    for n in range(350 if quick else 4000):
+        kind, op1, op2 = rng.choice(["Ts", "TsGroup"]), rng.choice(OPS), rng.choice(OPS)
+        c = gen_form_case(rng, nap, kind, op1, {"twice": False})
+        if c is None:
+            continue
+        if c["form"]["call"]["num"] in UNSIGNED:         # (the unsigned max_jitter candidate is reported by (H)/(L); a chain starts from a sound step)
+            c["form"]["call"]["num"] = "float"
+        k1, nv = {}, len(res.violations)
+        r1 = run_form_case(nap, res, c, Draws("lattice", rng=random.Random(seed * 67 + n)), "J1", n, lines, pending, keep=k1)
+        res.count("J:first step " + op1)
+        if r1[0] != "ok" or "r" not in k1 or len(res.violations) > nv:
+            continue
+        sup1 = r1[2] if kind == "Ts" else r1[3]
+        if len(sup1) != 1 or sup1[0][0] >= sup1[0][1] or (kind == "Ts" and not r1[1]) or (kind == "TsGroup" and r1[1] != list(c["keys"])):
+            res.count("J:result not on a single-interval support (no second step)")
+            continue
+        s1, e1 = sup1[0]
+        step = c["form"]["step"]
+        p2 = rand_params_form(rng, op2, max((e1 - s1) // step, 1), step)
+        cf2 = sample_case(rng, kind, op2, {"whole": step == S1})["form"]["call"]
+        try:
+            check_nums(op2, p2, cf2)
+        except NotApplicable:
+            cf2["num"] = "float"
+        c2 = {"kind": kind, "op": op2, "s": s1, "e": e1, "p": p2, "form": {"step": step, "call": cf2, "twice": False, "chain": op1}}
+        if kind == "Ts":
+            c2["ts"] = sorted(r1[1])
+        else:
+            c2["keys"], c2["tss"] = list(c["keys"]), [sorted(t) for t in r1[2]]
+        run_form_case(nap, res, c2, Draws("lattice", rng=random.Random(seed * 71 + n)), "J2", n, lines, pending, obj=k1["r"])
+        res.count("J:second step " + op2)
+
+    # (K) the EMPTY TsGroup (no member) x 5 placements x 4 generators x every parameter set x {} / [] / (): nothing in, nothing out, support kept
+    rng = random.Random(seed * 59 + 10)
+    n = 0
+    for oname in ORIGIN_NAMES:
+        s = origin_ticks(oname, 8, U)
+        e = s + 8 * U
+        for op in OPS:
+            plist = SHIFT_PARAMS if op == "shift_timestamps" else ([{"J": U, "keep": False}, {"J": U, "keep": True}] if op == "jitter_timestamps" else [{}])
+            for p, cont in itertools.product(plist, ("int", "list", "tuple")):
+                cf = sample_case(rng, "TsGroup", op, {"whole": False})["form"]["call"]
+                cf["extra"] = (0, None)
+                c = {"kind": "TsGroup", "op": op, "s": s, "e": e, "p": p, "keys": [], "tss": [],
+                     "form": {"step": U, "call": cf, "twice": rng.random() < 0.2,
+                              "group": {"step": U, "keys": cont, "keyset": "range", "member": "Ts", "hist": rng.choice(["direct", "direct_pos"]),
+                                        "sup": rng.choice(SUP_FORMS_ANY), "meta": None, "bypass": False, "units": "s", "data": None, "dseed": 0}}}
+                run_form_case(nap, res, c, Draws("lattice", rng=random.Random(seed + 7)), "K", n, lines, pending)
+                res.count("K:empty_TsGroup")
+                n += 1
+
+    # (M) classes the signatures do NOT accept (Tsd, TsdFrame, TsdTensor, dict of Ts, list of Ts): the statement does not say what happens;
+    #     required: a Python exception, or a result that satisfies the statement (never a silent wrong answer)
+    rng = random.Random(seed * 73 + 14)
+    for n, (oname, op, cls) in enumerate(itertools.product(ORIGIN_NAMES, OPS, FOREIGN)):
+        s = origin_ticks(oname, 6, U)
+        e = s + 6 * U
+        ts = rand_ts_step(rng, s, 6, 5, U)
+        p = rand_params_form(rng, op, 6, U)
+        inp = {"kind": "foreign", "class": cls, "op": op, "ts": ts, "support": [s, e], "params": p, "draw_seed": seed * 79 + n}
+        viols, outcome = run_foreign(nap, inp)
+        res.case(("M", n), nontrivial=False)
+        res.count("M:%s %s" % (cls, outcome))
+        record(res, viols, inp)
+
+    # model comparison for (A)(B)(C)(E)(F)(G)(H)(J)(K)
     outm = C.run_model(lines, driver="driver_c20")
     for (kind, inp, r), om in zip(pending, outm):
         if om.startswith("ERR"):
@@ -692,6 +1545,7 @@ def run(res, tier, seed):
             inp = {"kind": "Ts", "op": op, "ts": ts, "support": [s, e], "params": p, "numpy_seed": sd}
             res.case(("D", "Ts", op, sd), nontrivial=r[0] == "ok" and r[1] != ts)
             record(res, judge_ts(op, ts, s, e, p, r), inp)
+            check_range(res, op, "Ts", [ts], s, e, p, dr, inp)
             if op == "jitter_timestamps" and p["keep"] and r[0] == "ok":
                 res.count("D:jitter_keep_checked_against_recorded_draws")
                 if len(r[1]) < len(ts):
@@ -709,12 +1563,57 @@ def run(res, tier, seed):
             inp = {"kind": "TsGroup", "op": op, "keys": keys, "tss": tss, "support": [s, e], "params": p, "numpy_seed": sd}
             res.case(("D", "TsGroup", op, sd), nontrivial=r[0] == "ok" and r[2] != tss)
             record(res, judge_group(op, keys, tss, s, e, p, r, align_draws(op, tss, dr.flat()), res=res), inp)
+            check_range(res, op, "TsGroup", tss, s, e, p, dr, inp)
             if op == "jitter_timestamps" and p["keep"] and r[0] == "ok" and r[1] == list(keys):
                 dv = dr.flat()
                 if len(dv) != len(tss) or not all(kept_by_draws(t, s, e, o, d, 1) for t, o, d in zip(tss, r[2], dv)):
                     res.disagreements.append({"op": op, "kind": "TsGroup", "input": dict(inp, draws=dv), "impl": r[1:4],
                                               "what": "keep_tsupport=True: a member is not its stamps t_k + d_k (recorded draws) that fall inside the support"})
             res.count("D:" + op, 2)
+
+    # (L) argument forms x NumPy's real generator (statement oracle; jitter keep_tsupport=True also against the recorded draws)
+    rng = random.Random(seed * 61 + 12)
+    for n in range(450 if quick else 6000):
+        kind, op = rng.choice(["Ts", "TsGroup"]), rng.choice(OPS)
+        c = gen_form_case(rng, nap, kind, op, None)
+        if c is None:
+            continue
+        run_form_case(nap, res, c, Draws("real", seed=n), "L", n, None, None, real=True)
+        res.count("L:" + op)
+    _cleanup_tmp()
+
+
+def run_foreign(nap, inp):
+    """an object of a class the signature does not list -> (violations, outcome)"""
+    op, ts, (s, e), p, cls = inp["op"], inp["ts"], inp["support"], inp["params"], inp["class"]
+    sup, t, n = mk_support(nap, s, e), G.arr(ts), len(ts)
+    if cls == "Tsd":
+        x = nap.Tsd(t, np.arange(n), time_support=sup)
+    elif cls == "TsdFrame":
+        x = nap.TsdFrame(t, np.zeros((n, 2)), time_support=sup)
+    elif cls == "TsdTensor":
+        x = nap.TsdTensor(t, np.zeros((n, 2, 2)), time_support=sup)
+    elif cls == "dict":
+        x = {0: nap.Ts(t, time_support=sup)}
+    else:
+        x = [nap.Ts(t, time_support=sup)]
+    dr = Draws("lattice", rng=random.Random(inp["draw_seed"]))
+    try:
+        with dr:
+            r = call_op(nap, op, x, p)
+    except Exception as ex:   # noqa: BLE001
+        return [], "rejected with " + type(ex).__name__
+    if hasattr(r, "t") and hasattr(r, "time_support") and cls not in ("dict", "list"):
+        viols = judge_ts(op, ts, s, e, p, ("ok",) + canon_ts(r))
+    elif hasattr(r, "keys") and hasattr(r, "time_support") and cls in ("dict", "list"):
+        ks, outs, gs = canon_group(r)
+        viols = judge_group(op, [0], [ts], s, e, p, ("ok", ks, outs, gs, [[(C.to_ns(a), C.to_ns(b)) for a, b in r[k].time_support.values] for k in r.keys()], []),
+                            align_draws(op, [ts], dr.flat()))
+    else:
+        viols = [{"key": {"op": op, "kind": cls, "part": "foreign_result"}, "what": "%s(%s) returned a %s" % (op, cls, type(r).__name__)}]
+    for v in viols:
+        v["key"]["foreign_class"] = cls
+    return viols, "accepted"
 
 
 def search(res, seed):
@@ -735,6 +1634,15 @@ def replay(payload):
         print("nothing to replay")
         return 1
     op, (s, e), p = inp["op"], inp["support"], inp.get("params", {})
+    form = inp.get("form")
+    if form is not None and form.get("call", {}).get("extra") is not None:
+        form["call"]["extra"] = tuple(form["call"]["extra"])
+    if inp["kind"] == "foreign":
+        bad, outcome = run_foreign(nap, inp)
+        print("op", op, inp["class"], inp["ts"], "support", [s, e], "params", p, "->", outcome)
+        for b in bad:
+            print("VIOLATED:", b["what"], b["key"])
+        return 1 if bad else 0
     if "numpy_seed" in inp:
         dr = Draws("real", seed=inp["numpy_seed"])
     else:
@@ -745,15 +1653,20 @@ def replay(payload):
                 flat.extend(d)
             elif i >= len(members) or members[i]:      # no permutation is drawn for an empty member
                 flat.append(d)
+        if form is not None and form.get("twice"):        # the recorded draws are those of the second (judged) call: both calls replay them
+            flat = flat + flat
         dr = Draws("script", script=flat)
+        if form is not None and form.get("call", {}).get("num") in UNSIGNED:     # the library asks for an inverted range: scripted draws would be 'outside'
+            dr = Draws("lattice", rng=random.Random(0))
     if inp["kind"] == "Ts":
-        r = run_ts(nap, op, inp["ts"], s, e, p, dr)
-        bad = judge_ts(op, inp["ts"], s, e, p, r)
-        print("op", op, "Ts", inp["ts"], "support", [s, e], "params", p, "draws", dr.flat())
+        r = run_ts(nap, op, inp["ts"], s, e, p, dr, form=form)
+        bad = flag_unsigned(judge_ts(op, inp["ts"], s, e, p, r), op, form)
+        print("op", op, "Ts", inp["ts"], "support", [s, e], "params", p, "draws", dr.flat(), "form", form)
     else:
-        r = run_group(nap, op, inp["keys"], inp["tss"], s, e, p, dr)
-        bad = judge_group(op, inp["keys"], inp["tss"], s, e, p, r, align_draws(op, inp["tss"], dr.flat()))
-        print("op", op, "TsGroup", dict(zip(inp["keys"], inp["tss"])), "support", [s, e], "params", p, "draws", dr.flat())
+        r = run_group(nap, op, inp["keys"], inp["tss"], s, e, p, dr, form=form)
+        bad = flag_unsigned(judge_group(op, inp["keys"], inp["tss"], s, e, p, r, align_draws(op, inp["tss"], judged_draws(dr))), op, form)
+        print("op", op, "TsGroup", dict(zip(inp["keys"], inp["tss"])), "support", [s, e], "params", p, "draws", dr.flat(), "form", form)
+    _cleanup_tmp()
     print("impl", r[1:4] if r[0] == "ok" else r)
     for b in bad:
         print("VIOLATED:", b["what"], b["key"])
